@@ -1069,6 +1069,22 @@ Qed.
 Lemma find_task_notin : forall ts op, find_task ts op = None -> ~ In op (map t_op ts).
 Proof. intros ts op H I. apply in_map_iff in I as (t & E & It). exact (find_task_none _ _ H t It E). Qed.
 
+Lemma post_b_again : forall st1 e oracle st1b res2 tr2, exec_rpc st1 e oracle = (st1b, res2, tr2) -> is_cur_ts (p_rpc e) ->
+  bumpedk st1 (k_ts (p_rpc e)) (rtk (p_rpc e)) (k_ver (p_rpc e)) -> bumpedk st1b (k_ts (p_rpc e)) (rtk (p_rpc e)) (k_ver (p_rpc e)).
+Proof.
+  intros st1 e oracle st1b res2 tr2 X Ce B. unfold exec_rpc in X. unfold bumpedk, rtk in *.
+  set (x := k_ts (p_rpc e)) in *. set (tk := tkey (k_blob (p_rpc e)) (k_tract (p_rpc e))) in *.
+  destruct Ce as [K|K].
+  - rewrite K in X. cbn in X. destruct (ts_setversion _ _ _ _ _) as [reps c] eqn:Sv. inversion X; subst. cbn [s_reps set_reps].
+    pose proof (ts_setversion_frame _ _ _ _ _ _ _ Sv) as (F1 & F2 & F3). fold x tk in F2, F3.
+    destruct (rget (s_reps st1) (x, tk)) as [r0|] eqn:G; [|rewrite (F2 eq_refl); exact I].
+    destruct (F3 _ eq_refl) as (r' & G' & _ & L & _). rewrite G'. lia.
+  - rewrite K in X. cbn in X. destruct (ts_pull _ _ _ _ _ _ _) as [reps c] eqn:Pl. inversion X; subst. cbn [s_reps set_reps].
+    unfold ts_pull in Pl. fold x tk in Pl. destruct (negb (x =? aux_nth (p_rpc e) 0)); [inversion Pl; subst; exact B|].
+    apply pull_loop_spec in Pl as [OTH [SAME|[PRE RES]]]; [rewrite SAME; exact B|].
+    destruct RES as [RES|(src & s & GS & V & RES)]; rewrite RES; [exact I | cbn; lia].
+Qed.
+
 (* ---------- one event ---------- *)
 Lemma low_step_exec : forall L st mode r,
   ok_ev L st (7 :: mode :: r) = true -> G st -> low st -> low (fst (step_exec st mode r)).
@@ -1099,7 +1115,7 @@ Proof.
     destruct (machU_resume st e false hint PD T U) as (T1 & U1 & _).
     apply low_flush; auto; [apply inv2_resume; auto | apply low_resume; auto]. }
   destruct (mode =? 6) eqn:M6.
-  { exfalso. apply Z.eqb_eq in M6. destruct (mode_ok_cases _ _ OKM) as [M|[M|[M|M]]]; lia. }
+  { exfalso. apply Z.eqb_eq in M6. pose proof (mode_ok_cases _ _ OKM). lia. }
   destruct (k_kind rp =? K_FixVersion) eqn:KF.
   { cbn [fst]. apply Z.eqb_eq in KF.
     set (e2 := set_pent e 1 [] [] (mode =? 2) (negb (mode =? 5))).
@@ -1126,9 +1142,30 @@ Proof.
     destruct (machU_of _ _ (machT_start_task sb t RL RF) (keeps_start_task sb t) Tb Ub) as (Ts & Us & _).
     apply low_flush; auto. }
   destruct (exec_rpc st e place) as [[st1 res] tr] eqn:X1.
+  specialize (SD0 eq_refl).
   destruct (mode =? 3) eqn:M3.
-  { exfalso. apply Z.eqb_eq in M3. destruct (mode_ok_cases _ _ OKM) as [M|[M|[M|M]]]; lia. }
-  cbn [fst]. specialize (SD0 eq_refl).
+  { destruct (exec_rpc st1 e place) as [[st1b res2] tr2] eqn:X2. cbn [fst].
+    destruct (exec_low st e place st1 res tr I2 LW F SD0 X1) as (L1 & PB & (FP & FT & FN & FS)).
+    destruct (cinv_exec_upd2 st e place st1 res tr st1b res2 tr2 (mode =? 2) (negb (mode =? 5)) I2 OO T C F EST SD0 X1 X2) as [_ T2].
+    pose proof I2 as [I W].
+    destruct (inv_exec _ _ _ _ _ _ I X1) as (E1 & P1 & TB1).
+    assert (J1 : Inv2 st1) by (split; [exact (evolves_inv _ _ E1 I) | exact (win_exec _ _ _ _ _ _ I2 F X1)]).
+    assert (F1 : In e (s_pool st1)) by (rewrite P1; exact F).
+    pose proof (side_ok_again _ _ _ _ _ _ X1 SD0) as SD1.
+    destruct (exec_low st1 e place st1b res2 tr2 J1 L1 F1 SD1 X2) as (L1b & _ & (FP2 & FT2 & FN2 & FS2)).
+    destruct (inv_exec _ _ _ _ _ _ (proj1 J1) X2) as (E2 & P2 & TB2).
+    assert (J1b : Inv2 st1b) by (split; [exact (evolves_inv _ _ E2 (proj1 J1)) | exact (win_exec _ _ _ _ _ _ J1 F1 X2)]).
+    set (st2 := set_pool st1b (pool_update (s_pool st1b) (set_pent e 2 res tr (mode =? 2) (negb (mode =? 5))))) in *.
+    assert (J2 : Inv2 st2).
+    { split; [apply inv_pool_update; [exact (proj1 J1b) | rewrite P2; exact F1 |] | apply win_pool_update; [exact (proj2 J1b) | rewrite P2; exact F1]].
+      intros x Hx. destruct J1 as [[D1 _] _]. eapply bound_advances; [apply evolves_advances; exact E2 | exact D1 | apply (TB1 _ Hx)]. }
+    assert (U2 : ops_uniq st2).
+    { destruct (exec_misc _ _ _ _ _ _ X1) as (_ & O1 & _). destruct (exec_misc _ _ _ _ _ _ X2) as (_ & O2 & _).
+      apply (ops_uniq_same st); auto. cbn. congruence. }
+    apply low_flush; auto. apply low_upd; [exact L1b | rewrite FP2; exact F1 | intros _].
+    (* the copy did not fall back during the second execution *)
+    intros Ce OKc. specialize (PB Ce OKc). eapply post_b_again; eauto. }
+  cbn [fst].
   destruct (exec_low st e place st1 res tr I2 LW F SD0 X1) as (L1 & PB & (FP & FT & FN & FS)).
   destruct (cinv_exec_upd st e place st1 res tr (mode =? 2) (negb (mode =? 5)) I2 OO T C F EST SD0 X1) as [_ T2].
   pose proof I2 as [I W].
